@@ -170,7 +170,9 @@ def run(chk, tier, seed, replay):
         chk.cov["traces_validated_against_impl"] += len(shards[i])
     chk.cov["distinct_nontrivial"] += nontriv
     if rej:
-        per, br = vlib.verdict_crate("c07_reject", rej, prelude=PRELUDE, features=("display", "debug"))
+        sel = vlib.cap_cases([k for k, _ in rej], seed, 4000 if tier == "quick" else 12000)
+        rej = [x for x in rej if x[0] in sel]
+        per, br = vlib.verdict_crate_sharded("c07_reject", rej, 4 if tier == "quick" else 8, prelude=PRELUDE, features=("display", "debug"))
         for k, _ in rej:
             chk.cov["evaluations"] += 1
             if not [d for d in per[k] if d["level"] == "error"]:
